@@ -7,6 +7,7 @@
 package simrt
 
 import (
+	"context"
 	"crypto/sha256"
 	"encoding/hex"
 	"fmt"
@@ -324,6 +325,67 @@ func Go(f func()) {
 		return
 	}
 	s.spawn("", false, f)
+}
+
+// AfterFunc is context.AfterFunc under the simulator (T7): the standard library would run f on a
+// goroutine of its own that no scheduler seam reaches. Here a task waits for ctx and then runs f; until
+// ctx is done the task is a helper (it is not "left over" when it never fires).
+func AfterFunc(ctx context.Context, f func()) (stop func() bool) {
+	s := active.Load()
+	if s == nil || s.free || s.aborting.Load() {
+		return context.AfterFunc(ctx, f)
+	}
+	state := 0 // 0 waiting, 1 started, 2 stopped (guarded by s.mu)
+	var t *Task
+	t = s.spawn("context.AfterFunc", false, func() {
+		Blocking()
+		<-ctx.Done()
+		Woke()
+		s.mu.Lock()
+		if state == 2 {
+			s.mu.Unlock()
+			return
+		}
+		state = 1
+		t.Aux = false
+		s.mu.Unlock()
+		f()
+	})
+	s.mu.Lock()
+	t.Aux = true
+	s.mu.Unlock()
+	return func() bool {
+		s.mu.Lock()
+		defer s.mu.Unlock()
+		if state != 0 {
+			return false
+		}
+		state = 2
+		return true
+	}
+}
+
+// TimeAfterFunc is time.AfterFunc under the simulator (T7): f runs as a task when the (fake) timer fires.
+func TimeAfterFunc(d time.Duration, f func()) *time.Timer {
+	s := active.Load()
+	if s == nil || s.free || s.aborting.Load() {
+		return time.AfterFunc(d, f)
+	}
+	tm := time.NewTimer(d)
+	var t *Task
+	t = s.spawn("time.AfterFunc", false, func() {
+		Blocking()
+		<-tm.C
+		Woke()
+		s.mu.Lock()
+		t.Aux = false
+		s.mu.Unlock()
+		f()
+	})
+	s.mu.Lock()
+	t.Aux = true
+	s.mu.Unlock()
+	return tm
 }
 
 // GoAux starts a harness helper task.
